@@ -160,7 +160,8 @@ void ReadRecordHeader(
             ReadHeaderByte(CPU, Name, f);
             ReadHeaderByte(Segment, Name, f);
             ReadHeaderByte(Gran, Name, f);
-            if ((*Segment >= SegCount) || (*Gran == 0)) {
+            if ((*Segment >= SegCount)
+                || ((*Gran != 1) && (*Gran != 2) && (*Gran != 4) && (*Gran != 8))) {
                 FormatError(Name, "invalid segment or granularity");
             }
         } else if (*Header <= 0x7f) {
